@@ -817,7 +817,10 @@ pub fn lookalike_twins() -> Vec<(Value, Value)> {
     for (a, b) in [("0", r#""0""#), ("false", "0"), (r#""""#, "null"), (r#""a""#, r#""A""#), ("9007199254740992", "9007199254740993"), ("18446744073709551614", "18446744073709551615"),
                    ("-9223372036854775808", "-9223372036854775807"), ("1.5", r#""1.5""#), ("false", r#""false""#), ("[1,2]", r#""1,2""#), (r#"{"a":1}"#, r#"{"a":1.0}"#), ("0.1", "0.10000000000000002"),
                    ("[0]", "[false]"), (r#"{"a":1,"b":2}"#, r#"{"a":1,"b":"2"}"#), (r#"{"b":1}"#, r#"{"a":null}"#), (r#"{"a":null}"#, "{}"), (r#"{"a":null,"k":0}"#, r#"{"b":1,"k":0}"#),
-                   (r#"{"a":1,"b":2}"#, r#"{"b":2,"a":1,"c":null}"#), ("[1,2]", "[1,2,null]"), ("[[1,2]]", "[1,2]"), (r#"["a,b"]"#, r#"["a","b"]"#)] {
+                   (r#"{"a":1,"b":2}"#, r#"{"b":2,"a":1,"c":null}"#), ("[1,2]", "[1,2,null]"), ("[[1,2]]", "[1,2]"), (r#"["a,b"]"#, r#"["a","b"]"#),
+                   // containers whose texts coincide when strings are written without escaping (a string that spells JSON structure)
+                   (r#"["a\",\"b"]"#, r#"["a","b"]"#), (r#"{"k":"v\",\"w\":\"x"}"#, r#"{"k":"v","w":"x"}"#), (r#"["a\""]"#, r#"["a"]"#), (r#"["[1]"]"#, "[[1]]"), (r#"[["a\"],[\"b"]]"#, r#"[["a"],["b"]]"#),
+                   (r#"{"a":"1,\"b\":2"}"#, r#"{"a":1,"b":2}"#), (r#"["a\\"]"#, r#"["a\\\\"]"#), (r#"["\n"]"#, r#"["\\n"]"#)] {
         v.push((parse(a), parse(b)));
     }
     let rev: Vec<(Value, Value)> = v.iter().map(|(a, b)| (b.clone(), a.clone())).collect();
